@@ -308,7 +308,17 @@ let predict (c : string) (obs : string) : string * string * bool =
                if List.length chunks <> List.length rs then "number of shots differs"
                else List.fold_left2 (fun acc (sname, steps) c -> if acc <> "" then acc else obs_shot_ok sname steps c) "" specs chunks in
              let failed = List.exists (fun r -> r.sr_out <> Done) rs in
+             let nsamples c = (try
+                 let i = Str.search_forward (Str.regexp "samples=\\([^ ]*\\)") c 0 in
+                 ignore i; List.length (split_on ',' (Str.matched_group 1 c)) with Not_found -> 0) in
+             let wchunks = split_shots w in
+             let more = List.length chunks = List.length wchunks
+                        && List.exists2 (fun o x -> nsamples o > nsamples x) chunks wchunks in
+             let fewer = List.length chunks = List.length wchunks
+                         && List.exists2 (fun o x -> nsamples o < nsamples x) chunks wchunks in
              let v = if structural <> "" then "BAD:" ^ structural
+               else if more then "BAD:stop: a step that must fail (transport, template, preprocessor or assertion failure) was reported as a success and later steps ran"
+               else if fewer then "BAD:stop: the shot stopped at a step that must succeed"
                else if obs <> w then "BAD:shot log differs from the specified execution (variables visible to a template, scenario order or expansion)"
                else "ok" in
              (p, v, failed || List.length rs > 1)
